@@ -161,6 +161,18 @@ class NbSession:
             if rng.chance(1, 2):
                 s.vars.append(Var(2, 'v2', rng.choice([3, 4]), [0, 1], [0, n1], True))
             s.numrecs = 0
+        elif self.profile == 'strided':
+            # 2-D / 3-D variables (fixed and record) whose SLOW dimensions are long enough for stride > 1 with count >= 3
+            s = Schema.__new__(Schema)
+            s.rng = rng; s.fmt = rng.choice([1, 2, 5]); s.types = [1, 2, 3, 4, 5, 6] if s.fmt < 5 else list(range(1, 12))
+            s.dims = [('t', 0), ('a', rng.range(6, 9)), ('b', rng.range(5, 7)), ('c', rng.range(2, 4))]
+            ty = lambda: rng.choice(s.types)
+            shapes = [[1, 2], [1, 2, 3], [0, 1, 2], [0, 1, 3]]
+            rng.shuffle(shapes)
+            s.vars = []
+            for i, ids in enumerate(shapes[:rng.range(2, 4)]):
+                s.vars.append(Var(i, 'v%d' % i, ty(), ids, [s.dims[d][1] for d in ids], ids[0] == 0))
+            s.numrecs = 0
         else:
             s = Schema(rng, maxdims=3, maxvars=4, maxlen=5, want_rec=rng.chance(3, 4))
         self.s = s
@@ -338,10 +350,12 @@ class NbSession:
         self.numrecs = 0
         self.written = {}          # (vid, idx) -> value currently in the file per SPEC
         nrec0 = rng.choice([0, 2, 3, 4]) if not self.big else rng.choice([0, 2])
+        if self.profile == 'strided':
+            nrec0 = 3
         for v in s.vars:
             if v.isrec and nrec0 == 0:
                 continue
-            if rng.chance(1, 6):
+            if rng.chance(1, 6) and self.profile != 'strided':
                 continue
             start = [0] * v.nd
             count = [nrec0 if (i == 0 and v.isrec) else d for i, d in enumerate(v.shape)]
@@ -509,15 +523,76 @@ class NbSession:
             self.slots_free[r].append(q.slot)
         return q
 
+    def make_req(self, rank, kind, v, form, parts, memk=None):
+        memk = memk or v.xtype
+        idxs = [tuple(i) for st, ct, sd in parts if prod(ct) for i in O.req_indices(st, ct, sd)]
+        return Req(rank=rank, kind=kind, v=v, form=form, parts=parts, memk=memk, flex=False, buf=('c',), imap=None,
+                   count0=parts[0][1], seed=self.next_seed(), lim=O.pat_lim(memk, v.xtype), nelems=len(idxs), idxs=idxs,
+                   nbytes=len(idxs) * ELSIZE[v.xtype], slot=None, line=None, id_expected=None)
+
+    def post_strided_group(self, r):
+        """2-3 requests of one process on ONE variable, strided (stride > 1, count >= 3) in a SLOW non-record dimension,
+        whose file regions interleave while their elements are disjoint: completed together they go through the
+        flatten / sort / merge path of the aggregation (vars_flatten, merge_requests)"""
+        rng = self.rng
+        cands = [v for v in self.s.vars if v.nd >= 2]
+        if not cands:
+            return
+        v = rng.choice(cands)
+        first = 1 if v.isrec else 0
+        slow = [d for d in range(first, v.nd - 1) if v.shape[d] >= 5]
+        if not slow:
+            return
+        d = rng.choice(slow)
+        t = rng.choice([2, 2, 3]) if v.shape[d] >= 7 else 2
+        kind = rng.choice(['iput', 'iput', 'iget'])
+        base_start, base_count, base_stride = [], [], []
+        for i, n in enumerate(v.shape):
+            if i == 0 and v.isrec:
+                lim = 4 if kind != 'iget' else self.numrecs
+                st = rng.below(max(lim, 1)); c = rng.range(1, min(2, max(lim - st, 1)))
+                base_start.append(st); base_count.append(c); base_stride.append(1)
+            elif i == d:
+                base_start.append(0); base_count.append(0); base_stride.append(t)
+            else:
+                tt = rng.choice([1, 1, 2])
+                st = rng.below(n)
+                c = rng.range(1, (n - 1 - st) // tt + 1)
+                base_start.append(st); base_count.append(c); base_stride.append(tt if c > 1 else 1)
+        avoid = self.pending_put_keys()
+        reserved = {(q.v.vid, i) for pl in self.pending for q in pl if not q.isput for i in q.idxs}
+        offs = list(range(t)); rng.shuffle(offs)
+        for j in offs[:rng.range(2, t)] if t > 2 else offs:
+            cnt = (v.shape[d] - 1 - j) // t + 1
+            if cnt < 1:
+                continue
+            st = list(base_start); ct = list(base_count); sd = list(base_stride)
+            st[d] = j; ct[d] = cnt
+            memk = v.xtype if (v.xtype == 2 or rng.chance(2, 3)) else rng.choice([4, 6, 10, 5])
+            q = self.make_req(r, kind, v, 'vars', [(st, ct, sd)], memk=memk)
+            keys = {(v.vid, i) for i in q.idxs}
+            if keys & avoid or (q.isput and keys & reserved):
+                continue
+            if q.isput:
+                avoid |= keys
+            self.post_q(r, q)
+
     def round(self, use_bput):
         rng = self.rng
         np_ = self.np
         self.allow_overlap_gets = rng.chance(1, 5)
+        if self.profile == 'strided':
+            for r in range(np_):
+                if not self.poisoned[r]:
+                    for _ in range(rng.range(1, 2)):
+                        self.post_strided_group(r)
         # posts: different counts per rank
         for r in range(np_):
             if self.poisoned[r]:
                 continue
             n = rng.choice([0, 1, 2, 2, 3, 4, 5]) if not self.big else rng.choice([1, 2, 3])
+            if self.profile == 'strided':
+                n = rng.choice([0, 0, 1])
             for _ in range(n):
                 kinds = ['iput', 'iput', 'iget', 'iget'] + (['bput', 'bput', 'bput'] if use_bput else [])
                 if self.profile == 'abuf':
@@ -588,6 +663,8 @@ class NbSession:
         if not P:
             return [('wait', rng.choice([0, -1]), [])] if rng.chance(1, 2) else []
         c = rng.below(100)
+        if self.profile == 'strided':
+            c = rng.below(48)           # ALL / by kind / every request by id (in order or permuted): completed TOGETHER
         toks = lambda L: [str(q.slot) for q in L]
         if c < 12:
             return [('wait', -1, [])]
@@ -1680,6 +1757,19 @@ def directed_sessions():
     a = d.req(0, 'iput', 0, [0], [2]); b = d.req(0, 'iput', 0, [2], [1]); c = d.req(0, 'iget', 0, [3], [1])
     d.do_coll_wait([('wait', 2, [str(a.slot), str(a.slot)])])
     out.append(('failed-wait-poisons', d.finish()))
+    # interleaving requests strided in a SLOW dimension (count 3, stride 2), completed together: the flatten / sort / merge
+    # path of the aggregation (vars_flatten); fixed 2-D variable, then a record 3-D variable, puts then gets
+    d = Directed(1, [T, ('a', 6), ('b', 5)], [(4, [1, 2]), (6, [0, 1, 2])])
+    d.blocking_put(d.s.vars[0], [0, 0], [6, 5], [1, 1])
+    d.blocking_put(d.s.vars[1], [0, 0, 0], [2, 6, 5], [1, 1, 1])
+    for vid, st0, ct0 in ((0, [], []), (1, [1], [1])):
+        a = d.post_q(0, d.make_req(0, 'iput', d.s.vars[vid], 'vars', [(st0 + [0, 1], ct0 + [3, 2], [1] * len(st0) + [2, 2])]))
+        b = d.post_q(0, d.make_req(0, 'iput', d.s.vars[vid], 'vars', [(st0 + [1, 0], ct0 + [3, 3], [1] * len(st0) + [2, 2])]))
+        d.do_coll_wait([('wait', 2, [str(b.slot), str(a.slot)])])
+        a = d.post_q(0, d.make_req(0, 'iget', d.s.vars[vid], 'vars', [(st0 + [0, 0], ct0 + [3, 5], [1] * len(st0) + [2, 1])]))
+        b = d.post_q(0, d.make_req(0, 'iget', d.s.vars[vid], 'vars', [(st0 + [1, 1], ct0 + [3, 2], [1] * len(st0) + [2, 3])]))
+        d.do_coll_wait([('wait', -1, [])])
+    out.append(('strided-slow-dim-interleaved', d.finish()))
     # an invalid id on ONE process makes wait_all return NC_NOERR on the OTHER without doing its I/O
     d = Directed(2, [T, X], [(4, [1])])
     d.blocking_put(d.s.vars[0], [0], [4], [1])
